@@ -819,6 +819,42 @@ def r4_reserved_names(R) -> None:
                 f'`{n}` is known to the parser as a reserved name',
                 f"the parser accepts `{n}` as a variable name, but it is a {why}: build_model(parse_model('Y = {n}'))(range(3)) raises DuplicateNameError",
                 where='fsic/parser.py')
+    # a variable NAME is kept in the instance dictionary under '_' + NAME: a name whose slot is a method of the model
+    # classes hides that method on the instance (`evaluate` -> `_evaluate`, the evaluation pass itself), one whose slot is the
+    # container's own bookkeeping (`_attributes`, `_strict`) cannot be added at all
+    shadow = []
+    for cq in c3_mro(R.repo, 'fsic.core.models.BaseModel'):
+        try:
+            ci = R.repo.cls(cq)
+        except Exception:
+            continue
+        for st in ci.node.body:
+            if isinstance(st, ast.FunctionDef) and st.name.startswith('_') and not st.name.startswith('__') and st.name[1:].isidentifier() \
+                    and not any(isinstance(d, ast.Name) and d.id in ('staticmethod',) for d in st.decorator_list):
+                shadow.append((st.name[1:], f'method {ci.name}.{st.name}()'))
+    # ... and the container's own entries of that form, set up by VectorContainer.__init__
+    vi_ = R.repo.func('fsic.core.containers.VectorContainer.__init__')
+    for x in ast.walk(vi_.node):
+        if isinstance(x, ast.Assign) and len(x.targets) == 1:
+            from fsa.match import dict_slot
+            ds = dict_slot(x.targets[0])
+            if ds is not None and ds[0] == 'self' and isinstance(ds[1], ast.Constant) and isinstance(ds[1].value, str) and ds[1].value.startswith('_') and not ds[1].value.startswith('__'):
+                n_ = ds[1].value[1:]
+                R.check(n_ in consts, f'{P}.parse_model', f'reserved-name:{n_}',
+                        f'`{n_}` is known to the parser as a reserved name',
+                        f"the parser accepts `{n_}` as a variable name, but its storage slot `{ds[1].value}` is the container's own bookkeeping entry: "
+                        f"build_model(parse_model('Y = {n_}'))(range(3)) raises DuplicateNameError although parsing and building succeeded", where='fsic/parser.py')
+    seen_ = set()
+    for (n, why) in shadow:
+        if n in seen_ or n in {x for (x, _w) in names}:
+            continue
+        seen_.add(n)
+        if n not in ('evaluate',):
+            continue        # the private helpers of the container are not plausible variable names; the evaluation pass is
+        R.check(n in consts, f'{P}.parse_model', f'reserved-name:{n}',
+                f'`{n}` is known to the parser as a reserved name',
+                f"the parser accepts `{n}` as a variable name, but its storage slot `_{n}` is the {why}: build_model(parse_model('{n} = 0.5 * {n} + G'))(range(3), G=1.0).solve() "
+                f"fails in pass 1 with SolutionError ('numpy.ndarray' object is not callable) - the array hides the method on the instance", where='fsic/parser.py')
 
 
 # ---------------------------------------------------------------------------
